@@ -150,6 +150,15 @@ func lossyPicture(rng *rand.Rand, w, h int, content string) *image.NRGBA {
 			}
 		}
 		return p
+	case "smooth": // slow gradients with faint noise: most macroblocks end up skipped at low and medium quality
+		p := image.NewNRGBA(image.Rect(0, 0, w, h))
+		for y := 0; y < h; y++ {
+			for x := 0; x < w; x++ {
+				i := p.PixOffset(x, y)
+				p.Pix[i], p.Pix[i+1], p.Pix[i+2], p.Pix[i+3] = uint8((x*255/w+rng.Intn(3))&255), uint8((y*255/h+rng.Intn(3))&255), uint8(((x+y)/2+rng.Intn(3))&255), 255
+			}
+		}
+		return p
 	case "flat":
 		p := image.NewNRGBA(image.Rect(0, 0, w, h))
 		for i := 0; i < len(p.Pix); i += 4 {
@@ -205,7 +214,7 @@ func checkC06(args []string) {
 		default:
 			w, h = 1+rng.Intn(40), 1+rng.Intn(40)
 		}
-		content := []string{"noise", "graded", "graded", "flat"}[rng.Intn(4)]
+		content := []string{"noise", "graded", "smooth", "flat"}[rng.Intn(4)]
 		o := randomLossyOptions(rng)
 		if i >= n {
 			// large pictures (more than 510 macroblocks) whose segment map is almost entirely one segment
